@@ -16,7 +16,9 @@ TEXTS["C02"] = {
             "delivery events untouched (C02_rejected_by_check_no_effect, C02_rejected_by_contract_no_effect). The full clause 'any rejected IBTP has no effect' "
             "(C02_rejected_no_effect_holds, via the journal-faithfulness lemmas of C07) holds since the fix: commits 80242227/15f50afb; the former counter-example (fee failure after processing) is now "
             "the positive theorem C02_fee_failed_not_listed and its corpus witness is replayed on every run. "
-            "Model is run against the real executor+contracts on generated histories; model-free monitor recomputes accepted indices, counters and delivery sets from receipts.",
+            "History level (C02_history_requests_consecutive): over ANY sequence of IBTPs, the requests of an ordered pair that are accepted carry exactly the indices counter+1, counter+2, ... in order, and the pair's counter ends at counter + their number "
+            "(frame lemmas in Proofs/ExecFrame.lean: handling an IBTP of another pair leaves the pair's counter alone). "
+            "Model is run against the real executor+contracts on generated histories; model-free monitor recomputes accepted indices, request AND receipt counters (with their mirrors on the destination) and delivery sets from receipts.",
     "note": TB,
     "technique": "Lean 4 theorems over an executable model of the interchain contract + differential correspondence with the real executor",
 }
@@ -161,7 +163,8 @@ TEXTS["C05"] = {
             "child is SUCCESS and their number is the declared count (C05_global_success_needs_all); a group that left BEGIN without success can never become SUCCESS (C05_failed_group_never_succeeds); a failure receipt in BEGIN sets the "
             "group to BEGIN_FAILURE, the reporter to FAILURE and every other child, succeeded ones included, to BEGIN_FAILURE (C05_failure_receipt_flips_all); a child that cannot begin does the same and the notify lists are exactly "
             "all earlier children (source) / the earlier succeeded children (destinations) (C05_begin_failure_flips_all, C05_report_failure_notifies). On the real node a protocol monitor written from the property text follows every group "
-            "through receipts, status queries and the per-block multi-tx / timeout metadata. Four defects repaired by fix: commits (destinations never told on a failure receipt; all children filed under the first child's chain; notify "
+            "through receipts, status queries, the stored group record (q gtx: global state and every child state, also compared with the model) and the per-block multi-tx / timeout metadata; receipts for group children include repeated reports and the "
+            "failure / rollback acknowledgements sent after the group has failed. Four defects repaired by fix: commits (destinations never told on a failure receipt; all children filed under the first child's chain; notify "
             "lists and timed-out children in Go map order).",
     "note": TB + " Inter-BitXHub groups (union pier) are outside the op language; the timeout of a group is checked by the monitor and the model, not by a separate theorem.",
     "technique": "Lean 4 theorems over the executable transaction-manager model (FSM table regenerated) + differential correspondence + group protocol monitor",
@@ -170,7 +173,7 @@ TEXTS["C01"] = {
     "text": "The Lean model of block execution is a function of (configuration, ledger, block), so everything the correspondence run shows to agree with it is deterministic. What the model abstracts away is covered by (1) an inventory of "
             "every range over a Go map in the block-execution packages, regenerated from /repo on every run (lean/Bxh/Gen/MapRanges.lean), with kernel-checked table theorems: every loop that appends / builds a string in map order is sorted "
             "afterwards or is one of three reviewed ones, every loop that writes state or posts events per map entry is a reviewed one, no reviewed entry is stale (C01_appending_map_loops_are_sorted, C01_writing_map_loops_are_reviewed, "
-            "C01_reviewed_entries_exist, C01_repaired_loops_sorted); (2) a correspondence run that executes the traffic of every generator of the framework on three replicas with different local tuning (serial / parallel proof verification), "
+            "C01_reviewed_entries_exist, C01_repaired_loops_sorted); (2) the service cache: a cache that agrees with the ledger is invisible to checkIBTP's service look-ups (C01_coherent_cache_invisible), so a restarted replica (empty cache) and a long-running one decide alike; (3) a correspondence run that executes the traffic of every generator of the framework on three replicas with different local tuning (serial / parallel proof verification), "
             "one of them stopped and reopened at random places, and requires identical receipts, delivery / timeout / multi-tx metadata, block hash and all four roots. Five defects repaired by fix: commits (map-ordered notify lists and "
             "timed-out children stored in state / metadata; an emptied timeout list read differently from cache and from disk after a restart; stale state changer).",
     "note": TB + " PARTIAL: goroutine interleavings are exercised, not enumerated; the parallel executor type is not registered in this build and is not covered; XVM/EVM transactions are outside the op language; wall-clock time does not reach the compared outputs (timestamps are inputs).",
@@ -184,10 +187,13 @@ TEXTS["C15"] = {
             "tally only when it fails on the tallies and at the maximal reachable approvals (C15_rejected_only_if_unreachable, with the code's unsigned available-minus-rejections); a special proposal stays open without a super admin's ballot "
             "(C15_special_needs_super_admin); concluded proposals refuse votes and forced ends (C15_finality); simple majority = more than half (C15_simple_majority). Tie: the decision function is run against repo.MakeStrategyDecision / "
             "CheckStrategyExpression exhaustively for t <= 6 over 15 expressions; on the real node proposals of seven kinds are created through the manager contracts and voted on by admins, outsiders and candidates (repeated votes, garbage, "
-            "withdrawals), a monitor written from the property text checks every observation, and every vote step is validated against the Lean ballot machine (same pre-state, voter, role answer, ballot -> same post-state or refusal code).",
-    "note": TB + " PARTIAL: proposal creation, priority locks between concurrent proposals on one object, electorate updates (UpdateAvailableElectorateNum) and the effect on the governed object are covered by the monitor on the real node only, "
-            "not by the Lean model; strategy expressions outside the linear-comparison fragment are skipped by the validation; float64 vs exact evaluation coincide only for the coefficients used (integers, .5).",
-    "technique": "Lean 4 theorems over the executable ballot state machine and decision function + exhaustive differential run of the decision function + trace validation of real vote steps + property monitor",
+            "withdrawals, concurrent proposals of different priority on one object with the paused one withdrawn / voted on), a monitor written from the property text checks every observation, and every vote step is validated against the Lean ballot machine (same pre-state, voter, role answer, ballot -> same post-state or refusal code). "
+            "Proposal table (Bxh.GovTable: SubmitProposal with lockLowPriorityProposal, concluding ballots and electorate changes with handleResult / unlockLowPriorityProposal, WithdrawProposal, EndObjProposal, Lock/UnLockLowPriorityProposal; priorities regenerated from governance.go): "
+            "over EVERY sequence of these operations a concluded proposal is found unchanged at its position (C15_table_finality, C15_table_finality_history), and a ballot on a proposal that is not `proposed` concludes nothing (C15_table_vote_needs_proposed); "
+            "every submit / withdraw / concluding-vote block about an appchain or service with all proposals of the object read before and after is validated against the table machine. One defect repaired (fix b7ba65bb: a proposal withdrawn while paused was re-opened by the rejection of the proposal that had locked it).",
+    "note": TB + " PARTIAL: the table machine takes the ballot decision as an input and guards electorate conclusions by `not closed` as the only caller (role.go, GetNotClosedProposals) does; the electorate list at creation, "
+            "the strategy lookup and the effect on the governed object are covered by the monitor on the real node only, not by the Lean model; strategy expressions outside the linear-comparison fragment are skipped by the validation; float64 vs exact evaluation coincide only for the coefficients used (integers, .5).",
+    "technique": "Lean 4 theorems over the executable ballot state machine, the decision function and the proposal-table machine (finality by induction over operation sequences) + exhaustive differential run of the decision function + trace validation of real vote / submit / withdraw steps + property monitor",
 }
 
 TEXTS["C16"] = {
@@ -196,8 +202,8 @@ TEXTS["C16"] = {
             "source and, if recorded for execution, a destination that exists, is available and does not block the source (C16_accepted_request_is_gated). Life cycles: the state machines of roles (role.go) and of appchains, services, rules "
             "and nodes (bitxhub-core managers pinned by go.mod) and the available-status sets are regenerated on every run (lean/Bxh/Gen/Lifecycle.lean); kernel-checked table theorems, lifted to the step function for every event string: "
             "`forbidden` has no exit for appchains, services, roles, nodes (C16_forbidden_absorbing), rules are only cleared to `unavailable` (C16_rule_forbidden_only_cleared), an approved logout ends in forbidden and forbidden / frozen / "
-            "pause / unavailable are never available statuses (C16_logout_approved_is_forbidden), an approved freeze and the cascade `pause` leave the available set (C16_freeze_makes_unavailable). On the real node requests between 6 services "
-            "are interleaved with real governance operations and restarts; a monitor applies the gating rule with the statuses read back before each request, checks every observed status change against the regenerated state machines "
+            "pause / unavailable are never available statuses (C16_logout_approved_is_forbidden), an approved freeze and the cascade `pause` leave the available set (C16_freeze_makes_unavailable). On the real node requests between 6 services (and services registered during the history) "
+            "are interleaved with real governance operations (also left open and concluded later, and overlapping service / appchain proposals) and restarts; a monitor applies the gating rule with the statuses read back before each request, checks every observed status change against the regenerated state machines "
             "(paths of at most 3 transitions per block), that logged-out objects stay forbidden, and that a frozen / logged-out appchain has no usable service. One defect repaired (fix: a rejected logout of a frozen appchain unpaused its services).",
     "note": TB + " PARTIAL: the managers' bodies (bitxhub-core) are not modelled: that every status change goes through the state machine is checked on observed traces only; the exec model is compared until the first successful governance operation of a history; nodes, rules and dapps get no traffic.",
     "technique": "Lean 4 theorems (gating on the interchain model; table theorems over regenerated life-cycle state machines) + differential correspondence + gating / life-cycle / cascade monitor on real governance traffic",
